@@ -21,6 +21,7 @@ RULE = ("date / datetime vectors in units D, s, ms, us (time-of-day extractors o
 DATES = ["0001-01-01", "1969-12-31", "1970-01-01", "2000-02-29", "2004-12-31", "2015-12-31", "2020-12-31", "2021-01-03", "2024-02-29",
          "2026-09-29", "9999-12-31", "1999-03-07"]
 TIMES = ["T00:00:00", "T12:34:56", "T23:59:59.999999", "T06:07:08.000123"]
+ROUND_TIMES = ["T12:00:00", "T06:00:00", "T18:00:00", "T00:07:12", "T01:12:00", "T23:16:48"]
 EXTRACTORS = ["year", "month", "day", "hour", "minute", "second", "microsecond", "weekday", "isoweekday", "isoweek", "quarter"]
 TOD = {"hour", "minute", "second", "microsecond"}
 FORMATS_D = ["%Y-%m-%d", "%d.%m.%Y", "%Y%m%d", "%j/%Y"]
@@ -60,7 +61,10 @@ def gen_case(rng, tier):
         return {"op": "replace", "unit": unit, "vals": vals, "comps": comps, "via": rng.choice(["module", "proxy"])}
     if c < 0.75:
         unit = rng.choice(["D", "s", "us"])
-        vals = [None if rng.random() < 0.25 else (rng.choice(DATES) + ("" if unit == "D" else rng.choice(TIMES[:2]))) for _ in range(n)]
+        # times of day: midnight, an odd one, and "round" ones (whole hours, quarter days, 00:07:12 = 1/200 day) — a vector
+        # whose every time is round is still a vector of datetimes, not of dates
+        tpool = TIMES[:2] + ROUND_TIMES if rng.random() < 0.6 else ROUND_TIMES
+        vals = [None if rng.random() < 0.25 else (rng.choice(DATES) + ("" if unit == "D" else rng.choice(tpool))) for _ in range(n)]
         fmt = rng.choice(FORMATS_D if unit == "D" else FORMATS_T)
         if any(v is not None and v.startswith("0001") for v in vals):
             vals = [v if v is None or not v.startswith("0001") else v.replace("0001", "1001", 1) for v in vals]   # %Y < 1000 is unpadded on glibc
